@@ -561,6 +561,13 @@ def slice_faces_plane(
     dist = np.divide(num, denom)
     # intersection points for each segment
     int_points = np.einsum("ij,ijk->ijk", dist, d) + o
+    # a vertex within `tol.merge` of the plane was classified as on the plane:
+    # an edge ending there meets the plane at that vertex, not where the exact
+    # line does (anywhere along the edge or far beyond it: it is nearly parallel)
+    zero = signs[onedge] == 0
+    int_points[zero] = cut_triangles[zero]
+    zero = np.roll(zero, -1, axis=1)
+    int_points[zero] = np.roll(cut_triangles, -1, axis=1)[zero]
 
     # Initialize the array of new vertices with the current vertices
     new_vertices = vertices
